@@ -3,6 +3,8 @@ package checks
 import (
 	"encoding/json"
 	"fmt"
+	"strconv"
+	"strings"
 
 	"verif/core"
 	"verif/gen"
@@ -50,7 +52,80 @@ func c03One(ctx *core.Ctx, r *ref.Rendered, lc *layoutCase) {
 	}
 }
 
+// longLineCase is one document with a very long physical line: line-reading code with a token limit (bufio.Scanner: 64 KiB) or
+// a fixed buffer drops or truncates such a line, silently or with an error, although it is an ordinary comment, blank line or
+// list. kind/n are replayable.
+func longLineCase(kind string, n int) (*ref.Model, string) {
+	base := &ref.Model{Schema: "1.1", Types: []ref.TypeDef{{Name: "user"}, {Name: "group", Rels: []ref.Relation{{Name: "member", Rw: ref.T(), Restr: []ref.Restriction{{Type: "user"}}}}},
+		{Name: "doc", Rels: []ref.Relation{{Name: "viewer", Rw: ref.U(ref.T(), ref.C("editor")), Restr: []ref.Restriction{{Type: "user"}}}, {Name: "editor", Rw: ref.T(), Restr: []ref.Restriction{{Type: "user"}}}}}},
+		Conds: []ref.Condition{{Name: "c", Params: []ref.Param{{Name: "x", Type: "int"}}, Expr: "x < 100"}}}
+	if kind == "restrictions" {
+		alpha := []ref.Restriction{{Type: "user"}, {Type: "group", Relation: "member"}, {Type: "user", Wildcard: true}, {Type: "user", Condition: "c"}}
+		var rs []ref.Restriction
+		for i := 0; i < n; i++ {
+			rs = append(rs, alpha[(i*7)%len(alpha)])
+		}
+		base.Types[2].Rels[1].Restr = rs
+		return base, ref.Render(base, nil).Text
+	}
+	lines := strings.Split(ref.Render(base, nil).Text, "\n")
+	at := 0
+	for i, l := range lines {
+		if strings.HasPrefix(l, "type group") {
+			at = i
+		}
+	}
+	pad := strings.Repeat("long comment ", n/13+1)[:n]
+	switch kind {
+	case "full-line-comment":
+		lines = append(lines[:at], append([]string{"# " + pad}, lines[at:]...)...)
+	case "trailing-comment":
+		lines[at] += " # " + pad
+	case "blank-line":
+		lines = append(lines[:at], append([]string{strings.Repeat(" ", n)}, lines[at:]...)...)
+	case "trailing-blanks":
+		lines[at] += strings.Repeat(" ", n)
+	case "first-line-comment":
+		lines = append([]string{"# " + pad}, lines...)
+	case "last-line-comment":
+		for len(lines) > 0 && lines[len(lines)-1] == "" {
+			lines = lines[:len(lines)-1]
+		}
+		lines = append(lines, "# "+pad)
+	default:
+		panic("longLineCase: " + kind)
+	}
+	return base, strings.Join(lines, "\n")
+}
+
+var longLineKinds = []string{"full-line-comment", "trailing-comment", "blank-line", "trailing-blanks", "first-line-comment", "last-line-comment"}
+
+func c03LongLines(ctx *core.Ctx) {
+	sizes := []int{1023, 1024, 4095, 4096, 4097, 65533, 65534, 65535, 65536, 65537, 70000, 131072, 1<<20 + 1}
+	k := 0
+	run := func(kind string, n int) {
+		k++
+		if !ctx.Mine(1<<27 + k) {
+			return
+		}
+		m, text := longLineCase(kind, n)
+		ctx.Eval(1)
+		lc := &layoutCase{Tag: fmt.Sprintf("longline:%s:%d", kind, n), Model: m}
+		c03One(ctx, &ref.Rendered{Text: text}, lc)
+		ctx.Flag("c03:long-lines")
+	}
+	for _, kind := range longLineKinds {
+		for _, n := range sizes {
+			run(kind, n)
+		}
+	}
+	for _, n := range []int{200, 5000, 9000, 20000} {
+		run("restrictions", n)
+	}
+}
+
 func c03Run(ctx *core.Ctx) {
+	c03LongLines(ctx)
 	// size sweeps first (cheap, carry their own guard): canonical layout and every uniform style
 	for i, tm := range gen.SweepModelsDSL(sweepSizes(ctx)) {
 		if !ctx.Mine(1<<26 + i) {
@@ -103,7 +178,7 @@ func modelSize(m *ref.Model) int {
 func init() {
 	core.Register(&core.Check{
 		ID: "C03",
-		Rule: "size sweeps (one dimension of a model - operands of a union/intersection, relations of a type, types, conditions, parameters of a condition cycling through all 24 types, entries of a restriction list - scaled through 11 (quick) / 26 (thorough) sizes between 4 and 128 around the thresholds sorting and buffering code commonly has, contents in scrambled order; names of 64..1100 characters; one-line condition expressions of 300..4200 characters; declarations before and after the large part) under the canonical layout and every uniform style; models from the generator families (all DSL-conform rewrite shapes up to 3/4 leaves, every identifier class in every grammatical position, " +
+		Rule: "long physical lines (a full-line comment, a trailing comment, a blank line, trailing blanks, a comment on the first and on the last line of 1023..65537, 70000, 131072 and 1048577 bytes; a one-line restriction list of 200..20000 entries) in a four-type model; size sweeps (one dimension of a model - operands of a union/intersection, relations of a type, types, conditions, parameters of a condition cycling through all 24 types, entries of a restriction list - scaled through 11 (quick) / 26 (thorough) sizes between 4 and 128 around the thresholds sorting and buffering code commonly has, contents in scrambled order; names of 64..1100 characters; one-line condition expressions of 300..4200 characters; declarations before and after the large part) under the canonical layout and every uniform style; models from the generator families (all DSL-conform rewrite shapes up to 3/4 leaves, every identifier class in every grammatical position, " +
 			"all restriction lists up to length 2/3, all 24 parameter types, expression alphabet, unsorted multi-type models, module files) x renderings: " +
 			"canonical layout with every single deviation (pairs on tiny models), every uniform style (one alternative at all sites of a kind; thorough: plus every single deviation on top). " +
 			"Each text is parsed by TransformDSLToProto and TransformModularDSLToProto and compared with the model that was written. " +
@@ -115,6 +190,9 @@ func init() {
 		Technique: "bounded exhaustive enumeration of models x layouts (deviation-bounded DFS over layout choice points) against an independent renderer/AST reference",
 		Run:       c03Run,
 		Finish: func(r *core.Result) error {
+			if !r.Flags["c03:long-lines"] {
+				return fmt.Errorf("C03: long physical lines never exercised")
+			}
 			if !r.Flags["c03:sweeps"] {
 				return fmt.Errorf("C03: size sweeps never exercised")
 			}
@@ -127,6 +205,14 @@ func init() {
 			var lc layoutCase
 			if err := json.Unmarshal(c, &lc); err != nil {
 				panic(err)
+			}
+			if strings.HasPrefix(lc.Tag, "longline:") {
+				f := strings.Split(lc.Tag, ":")
+				n, _ := strconv.Atoi(f[2])
+				m, text := longLineCase(f[1], n)
+				lc.Model = m
+				c03One(ctx, &ref.Rendered{Text: text}, &lc)
+				return
 			}
 			c03One(ctx, renderCase(&lc), &lc)
 		},
